@@ -31,6 +31,9 @@ use std::{
     time::Duration,
 };
 
+#[cfg(emit_rs_emit_verif)]
+pub mod verif;
+
 mod internal_metrics;
 
 /**
@@ -353,6 +356,9 @@ impl<T: Channel> Receiver<T> {
         mut wait: impl FnMut(Duration) -> FWait,
         mut on_batch: impl FnMut(T) -> FBatch,
     ) {
+        #[cfg(emit_rs_emit_verif)]
+        let mut wait = move |delay: Duration| wait(verif::scale_wait(delay));
+
         // This variable holds the "next" batch
         // Under the lock all we do is push onto a pre-allocated vec
         // and replace it with another pre-allocated vec
